@@ -16,7 +16,9 @@ pub struct Client {
     server_addr: String,
     server_name: ServerName<'static>,
     tls_config: Arc<tokio_rustls::TlsConnector>,
-    padding: Arc<PaddingFactory>,
+    // Current padding scheme, shared with every session of this client so that a
+    // scheme pushed by the server is used (and announced) by later sessions too
+    padding: Arc<tokio::sync::RwLock<Arc<PaddingFactory>>>,
     session_pool: Arc<SessionPool>,
     pool_config: SessionPoolConfig,
 }
@@ -59,7 +61,7 @@ impl Client {
             server_addr,
             server_name,
             tls_config,
-            padding,
+            padding: Arc::new(tokio::sync::RwLock::new(padding)),
             session_pool,
             pool_config,
         }
@@ -285,7 +287,8 @@ impl Client {
         // Split TLS stream into reader and writer
         let (reader, mut writer) = tokio::io::split(tls_stream);
         tracing::trace!("[Client] Sending authentication");
-        send_authentication(&mut writer, &self.password_hash, &self.padding).await?;
+        let padding = { self.padding.read().await.clone() };
+        send_authentication(&mut writer, &self.password_hash, &padding).await?;
         tracing::debug!("[Client] Authentication sent successfully");
 
         // Create session with reader and writer
@@ -293,10 +296,10 @@ impl Client {
             interval: self.pool_config.check_interval,
             timeout: self.pool_config.idle_timeout,
         };
-        let session = Arc::new(Session::new_client(
+        let session = Arc::new(Session::new_client_with_shared_padding(
             reader,
             writer,
-            self.padding.clone(),
+            Arc::clone(&self.padding),
             Some(heartbeat_config),
         ));
 
